@@ -8,7 +8,8 @@ cd "$(dirname "$0")/.."
 if ! git -C /repo diff --quiet; then echo "refusing: /repo has uncommitted changes"; exit 2; fi
 props=$(python3 -c "import json,re; m=json.load(open('$dir/meta.json')); print(' '.join(dict.fromkeys(re.findall(r'C[0-9][0-9]', ' '.join([m['property']]+m.get('also',[]))))))")
 git -C /repo apply "$dir/patch.diff" || { echo "patch does not apply"; exit 2; }
-trap 'git -C /repo checkout -- . ; git -C /repo clean -fdq -- . 2>/dev/null' EXIT
+# the run on the modified tree rewrites evidence/<ID>.json: the committed files (runs on the unchanged tree) are put back at the end
+trap 'git -C /repo checkout -- . ; git -C /repo clean -fdq -- . 2>/dev/null; git checkout -q -- evidence 2>/dev/null' EXIT
 rc=0
 for p in $props; do
   out=$(mktemp)
